@@ -528,29 +528,60 @@ open InfernoVerif
 
 
 def translate_module(mod: str, item: dict) -> dict:
-    src_path = REPO / item["file"]
-    src = src_path.read_text()
-    tree = ast.parse(src)
-    fdefs = {n.name: n for n in tree.body if isinstance(n, ast.FunctionDef)}
-    table = {}
-    for fn, kinds in item["functions"].items():
-        if fn not in fdefs:
-            raise TranslateError(f"{item['file']}::{fn}", "function not found in source")
-        fd = fdefs[fn]
-        table[fn] = {"order": [a.arg for a in fd.args.posonlyargs + fd.args.args + fd.args.kwonlyargs], "kinds": kinds}
+    """one generated module = module-level functions of ONE file (`file`, `functions`) and / or *sites*
+    (`sites`: expressions inside methods, each with its own `file`; see harness/sites.py)"""
+    import sites as sitemod
+    fdefs, table, segs, srcfile = {}, {}, {}, {}
+    names = []
+    if item.get("functions"):
+        src_path = REPO / item["file"]
+        src = src_path.read_text()
+        tree = ast.parse(src)
+        top = {n.name: n for n in tree.body if isinstance(n, ast.FunctionDef)}
+        for fn, kinds in item["functions"].items():
+            if fn not in top:
+                raise TranslateError(f"{item['file']}::{fn}", "function not found in source")
+            fdefs[fn] = top[fn]
+            segs[fn] = ast.get_source_segment(src, top[fn]) or ""
+            srcfile[fn] = item["file"]
+            table[fn] = {"order": [a.arg for a in top[fn].args.posonlyargs + top[fn].args.args + top[fn].args.kwonlyargs],
+                         "kinds": kinds}
+            names.append(fn)
+    for sn, site in item.get("sites", {}).items():
+        where = f"{site['file']}::{site.get('cls') or ''}.{site['method']}::{site['target']}"
+        try:
+            fd, seg = sitemod.build((REPO / site["file"]).read_text(), sn, site, where)
+        except sitemod.SiteError as e:
+            raise TranslateError(e.where, str(e)) from e
+        fdefs[sn] = fd
+        segs[sn] = seg
+        srcfile[sn] = site["file"]
+        table[sn] = {"order": list(site["params"]), "kinds": {"params": site["params"]}}
+        names.append(sn)
+    allkinds = {fn: (item["functions"][fn] if fn in item.get("functions", {}) else {"params": item["sites"][fn]["params"]})
+                for fn in names}
     info = {}
     outs = {}
+    srcdesc = item.get("file") or "several files (sites)"
     for flv in ("R", "F"):
         fl = Flavour(flv)
-        text = (HEADER_R if flv == "R" else HEADER_F).format(src=item["file"], mod=mod)
-        for fn in item["functions"]:
-            tx = FnTx(fl, fdefs[fn], item["functions"][fn], table, f"{item['file']}::{fn}")
-            seg = ast.get_source_segment(src, fdefs[fn]) or ""
+        text = (HEADER_R if flv == "R" else HEADER_F).format(src=srcdesc, mod=mod)
+        for fn in names:
+            where = f"{srcfile[fn]}::{fn}"
+            tx = FnTx(fl, fdefs[fn], allkinds[fn], table, where)
+            seg = segs[fn]
             d, rk = tx.emit()
-            table[fn]["kinds"] = dict(item["functions"][fn], ret=rk)
-            text += f"\n/-- from `{item['file']}` :: `{fn}` (sha256 of source segment {hashlib.sha256(seg.encode()).hexdigest()[:16]}) -/\n" + d
-            info[fn] = {"source_sha": hashlib.sha256(seg.encode()).hexdigest()[:16], "ret": rk,
-                        "order": table[fn]["order"], "params": item["functions"][fn]["params"]}
+            table[fn]["kinds"] = dict(allkinds[fn], ret=rk)
+            sha = hashlib.sha256(seg.encode()).hexdigest()[:16]
+            if fn in item.get("sites", {}):
+                st = item["sites"][fn]
+                origin = (f"site `{st.get('cls') or ''}.{st['method']}" + (f" / {st['nested']}" if st.get("nested") else "")
+                          + f"` :: `{st['target']}`" + (f" #{st['nth']}" if st.get("nth") else ""))
+                text += f"\n/-- from `{srcfile[fn]}` :: {origin} (sha256 of source segment {sha}) -/\n" + d
+            else:
+                text += f"\n/-- from `{srcfile[fn]}` :: `{fn}` (sha256 of source segment {sha}) -/\n" + d
+            info[fn] = {"source_sha": sha, "ret": rk, "order": table[fn]["order"], "params": allkinds[fn]["params"],
+                        "site": fn in item.get("sites", {})}
         text += f"\nend InfernoVerif.Gen.{mod}{flv}\n"
         outs[flv] = text
     changed = False
